@@ -373,6 +373,8 @@ pub fn build(j: &Json, ctx: &Ctx) -> Option<Observable<'static, Val>> {
         _ => err_id(&e) < 5,
       }
     }),
+    // delays on the calling thread for `a` virtual milliseconds
+    "delay" => o.delay(std::time::Duration::from_millis(a.clamp(0, 50) as u64)),
     "ref_count" => o.ref_count().observable(),
     "replay" => o.replay().observable(),
     "time_interval" => o.time_interval().map(|d| Val::Int(d.as_millis() as i64)),
